@@ -143,6 +143,7 @@ def values(budget, depth):
         return
     if budget == 1:
         yield ("T",)
+        yield ("G",)  # tensor that requires grad (e.g. an nn.Parameter held by a module)
         yield ("S",)
     for kind in ("D", "U", "L", "M"):
         if kind == "M" and depth >= 3:
@@ -175,9 +176,12 @@ def module_specs(nodes):
 
 def build_value(spec, torch, OptimizerModule, ctr, fill):
     k = spec[0]
-    if k == "T":
+    if k in ("T", "G"):
         ctr[0] += 1
-        return torch.full((2,), float(ctr[0]) if fill else 0.0)
+        t = torch.full((2,), float(ctr[0]) if fill else 0.0)
+        if k == "G":
+            t.requires_grad_(True)
+        return t
     if k == "S":
         ctr[0] += 1
         return ctr[0] if fill else -1
@@ -221,6 +225,7 @@ def check_module(spec, torch, OptimizerModule, via_checkpoint):
     if ptrs(src_t) != ptrs(sd_t):
         msgs.append(f"state_dict() reaches {len(sd_t)} tensors, the module holds {len(src_t)}")
     before = dict(walk_tensors(dst, OptimizerModule, torch))
+    before_rg = {p: t.requires_grad for p, t in before.items()}
     aliases = list(before.values())
     if via_checkpoint:
         if not src_t:
@@ -239,6 +244,8 @@ def check_module(spec, torch, OptimizerModule, via_checkpoint):
         msgs.append("load changed the structure of the module")
         return msgs
     for p, t in after.items():
+        if t.requires_grad != before_rg[p] or not t.is_leaf:
+            msgs.append(f"tensor at {p}: requires_grad/leaf status changed by the load")
         if t is not before[p]:
             msgs.append(f"tensor object at {p} was replaced by load (in-place copy expected)")
         if p not in src_t or not torch.equal(t, src_t[p]):
@@ -311,7 +318,11 @@ def run_unit(unit):
                 for k in reversed(ks):
                     proto = {k: proto}
                 d = materialise(proto, torch, [0])
-                rec({"part": "flat", "proto": encode(proto)}, check_flat(d, flatten, unflatten), depth >= 3, common.h64("chain", repr(ks)))
+                try:
+                    cm = check_flat(d, flatten, unflatten)
+                except Exception as e:
+                    cm = [f"raised {type(e).__name__}: {str(e)[:100]}"]
+                rec({"part": "flat", "proto": encode(proto)}, cm, depth >= 3, common.h64("chain", repr(ks)))
                 res["stats"]["flat_structures"] += 1
     else:
         specs = list(module_specs(unit["nodes"]))
@@ -323,7 +334,7 @@ def run_unit(unit):
                 except Exception as e:
                     msgs = [f"raised {type(e).__name__}: {str(e)[:120]}"]
                 res["stats"]["module_graphs"] += 1
-                rec({"part": "mod", "spec": spec, "via_checkpoint": via}, msgs, repr(spec).count("T") >= 2, common.h64(repr(spec), via))
+                rec({"part": "mod", "spec": spec, "via_checkpoint": via}, msgs, repr(spec).count("'T'") + repr(spec).count("'G'") >= 2, common.h64(repr(spec), via))
             if len(res["violations"]) > 20:
                 break
         res["samples"].append({"module_spec": repr(specs[unit["ids"][len(unit["ids"]) // 2]])})
